@@ -28,6 +28,7 @@ type yOpInstance struct {
 
 func init() {
 	register("c10", Def{
+		Debug: true,
 		Rule: "pipe: seeded valid chord texts (degree and note-name notation, all expressible intervals 1..15 x none/#/b, dictionary symbols, slash chords, several fractions, every setting, metadata texts with " +
 			"YAML-significant and non-ASCII characters, key changes) through the real `text conv | write`; scalar: every value of every scalar field (interval notations n<=64 x 6 marks as degree and as base, " +
 			"28 keys, fractions and meters n,d<=16 and a seeded set up to 999, 6 dynamics, bpm) printed into a document and read back through `write parse`; cmt: seeded documents through " +
